@@ -917,7 +917,7 @@ func (g *tkGen) params() (rig.Tx, bool) {
 	}
 	amt := pick(rng, int64(0), 1, 7, 81, 60000, 1_000_000)
 	if denom != native {
-		amt = pick(rng, int64(1), 2, 7)
+		amt = pick(rng, int64(1), 2, 7, 40)
 	}
 	p.IssueTokenBaseFee = sdk.NewInt64Coin(denom, amt)
 	tag.Var = fmt.Sprintf("tax=%s/ratio=%s/fee=%d%s", tv, rv, amt, map[bool]string{true: "native", false: "user-token"}[denom == native])
@@ -962,6 +962,28 @@ func (g *tkGen) mintPlain() (rig.Tx, bool) {
 
 // send moves user tokens between accounts so that non-owners hold (and can burn) them.
 func (g *tkGen) send() (rig.Tx, bool) {
+	// while fees are charged in a user token, its biggest holder hands a tenth of his balance to each other account
+	// (otherwise only operations whose fee is zero would ever succeed)
+	if ft := g.s.bySymbol(g.s.Params.IssueTokenBaseFee.Denom); ft != nil && ft.MinUnit != v1.GetNativeToken().MinUnit {
+		var rich *rig.Account
+		for _, a := range g.accs {
+			if !g.poisoned[a.Addr.String()] && (rich == nil || g.s.balOf(a.Addr.String(), ft.MinUnit).Cmp(g.s.balOf(rich.Addr.String(), ft.MinUnit)) > 0) {
+				rich = a
+			}
+		}
+		if rich != nil {
+			share := new(big.Int).Quo(g.s.balOf(rich.Addr.String(), ft.MinUnit), big.NewInt(10))
+			var msgs []sdk.Msg
+			for _, b := range g.accs {
+				if b != rich && share.Sign() > 0 && g.s.balOf(b.Addr.String(), ft.MinUnit).Cmp(share) < 0 {
+					msgs = append(msgs, banktypes.NewMsgSend(rich.Addr, b.Addr, sdk.NewCoins(coin(ft.MinUnit, share))))
+				}
+			}
+			if len(msgs) > 0 {
+				return g.r.Mk(rich, &tkTag{Kind: "send", Var: "fee-token-distribution"}, msgs...), true
+			}
+		}
+	}
 	hs := g.holdings(false)
 	if len(hs) == 0 {
 		return rig.Tx{}, false
@@ -1248,7 +1270,7 @@ func (d *tkC09) accepted(br *rig.BlockRecord, tx *rig.TxRecord, tag *tkTag, pre,
 	// fee clause: what the owner is charged = fee-pool gain + burned part, nothing stays in the module account.
 	// The gain G and the burned part B are read off the fee collector and the supply; the owner's
 	// debit and every other account (incl. the module account) are then dictated.
-	fee := func(owner string, mintedDenom string, minted *big.Int) {
+	fee := func(owner string, mintedDenom string, minted *big.Int, sym string) {
 		ft := pre.bySymbol(pre.Params.IssueTokenBaseFee.Denom)
 		if ft == nil {
 			return
@@ -1286,6 +1308,22 @@ func (d *tkC09) accepted(br *rig.BlockRecord, tx *rig.TxRecord, tag *tkTag, pre,
 		if G.Cmp(lo) < 0 || G.Cmp(hi) > 0 {
 			run.Violation(key+":fee-split:tax-share", det, "%s: fee %s at tax rate %s put %s into the fee pool, expected %s..%s", tag.Kind, F, pre.Params.TokenTaxRate, G, lo, hi)
 		}
+		// the amount: base fee over the symbol-length factor in whole main units of the fee token (at least 1), for a
+		// mint the configured ratio of that (whole main units again), charged in minimum units of the fee token
+		wantF := tkFeeMain(sym, bi(pre.Params.IssueTokenBaseFee.Amount))
+		if tag.Kind == "mint" {
+			wantF.Mul(wantF, pre.Params.MintTokenFeeRatio.BigInt())
+			wantF.Quo(wantF, e18)
+		}
+		wantF.Mul(wantF, tkPow10(ft.Scale))
+		run.Eval(1)
+		if F.Cmp(wantF) != 0 {
+			det["want_fee"], det["fee_token_scale"], det["base_fee"], det["mint_ratio"] = wantF.String(), ft.Scale, pre.Params.IssueTokenBaseFee.String(), pre.Params.MintTokenFeeRatio.String()
+			run.Violation(key+":fee-amount", det, "%s of %s: the owner was charged %s %s, the fee formula gives %s (base fee %s, mint ratio %s, fee token scale %d)", tag.Kind, sym, F, fd, wantF, pre.Params.IssueTokenBaseFee, pre.Params.MintTokenFeeRatio, ft.Scale)
+		}
+		if ft.Scale > 0 {
+			run.Count("fee-charged-in-a-token-with-scale>0:"+tag.Kind, 1)
+		}
 		run.Class("fee", tag.Kind, "tax="+tkRatioClass(pre.Params.TokenTaxRate), "ratio="+tkRatioClass(pre.Params.MintTokenFeeRatio), "fee="+magClass(F), fmt.Sprint("native=", fd == v1.GetNativeToken().MinUnit), "symlen="+tkLenClass(len(tag.Sym)))
 		run.Sample("fee:"+tag.Kind, det)
 	}
@@ -1300,7 +1338,7 @@ func (d *tkC09) accepted(br *rig.BlockRecord, tx *rig.TxRecord, tag *tkTag, pre,
 			run.Violation("C09:token:min-unit-identifies-two-tokens", detail, "issue with min unit %q succeeded although it already identifies token %s (owner %s)", msg.MinUnit, old.Symbol, old.Owner)
 		}
 		minted := new(big.Int).Mul(new(big.Int).SetUint64(msg.InitialSupply), tkPow10(msg.Scale))
-		fee(msg.Owner, msg.MinUnit, minted)
+		fee(msg.Owner, msg.MinUnit, minted, msg.Symbol)
 		exp.add(msg.Owner, msg.MinUnit, minted)
 		addSup(msg.MinUnit, minted)
 		mt := &tkModelToken{Symbol: msg.Symbol, MinUnit: msg.MinUnit, Scale: msg.Scale, Initial: msg.InitialSupply, Owner: msg.Owner, Mintable: msg.Mintable, Max: msg.MaxSupply, Name: msg.Name}
@@ -1339,7 +1377,7 @@ func (d *tkC09) accepted(br *rig.BlockRecord, tx *rig.TxRecord, tag *tkTag, pre,
 		if rcpt == "" {
 			rcpt = msg.Owner
 		}
-		fee(msg.Owner, msg.Coin.Denom, amt)
+		fee(msg.Owner, msg.Coin.Denom, amt, pt.Symbol)
 		exp.add(rcpt, msg.Coin.Denom, amt)
 		addSup(msg.Coin.Denom, amt)
 		d.checkCap(tx, tag, pre, post, mt.Symbol, detail)
@@ -1442,6 +1480,21 @@ func (d *tkC09) accepted(br *rig.BlockRecord, tx *rig.TxRecord, tag *tkTag, pre,
 	}
 	run.Sample("tx:"+tag.Kind, map[string]any{"height": br.Height, "intent": tag.String(), "msg": msgBrief(tx.Msgs), "delta": fmt.Sprint(act)})
 	d.checkRegistry(tx, tag, post)
+}
+
+// tkFeeMain is the issue fee of a symbol in whole main units of the fee token: base / round2((ln(len)/ln 3)^4), at least 1.
+func tkFeeMain(symbol string, base *big.Int) *big.Int {
+	f := math.Pow(math.Log(float64(len(symbol)))/math.Log(3), 4)
+	fi, ok := new(big.Int).SetString(strings.Replace(strconv.FormatFloat(f, 'f', 2, 64), ".", "", 1), 10)
+	if !ok || fi.Sign() <= 0 {
+		return big.NewInt(1)
+	}
+	q := new(big.Int).Mul(base, big.NewInt(100))
+	q.Quo(q, fi)
+	if q.Sign() <= 0 {
+		return big.NewInt(1)
+	}
+	return q
 }
 
 func tkMinInt(a, b int) int {
@@ -1874,6 +1927,8 @@ func (g *tkGen) fromERC20() (rig.Tx, bool) {
 		tag.Rcpt, rcv = "blocked", g.blockedAddr().String()
 	case k == 8:
 		tag.Rcpt, rcv = "token-module", authtypes.NewModuleAddress(tokentypes.ModuleName).String()
+	case k == 9:
+		tag.Rcpt, rcv = "32-byte-address", sdk.AccAddress([]byte(fmt.Sprintf("tk-long-account-address-%08d", rng.Intn(1000)))).String()
 	default:
 		tag.Rcpt, rcv = "self", h.a.Addr.String()
 	}
@@ -2370,7 +2425,7 @@ func (d *tkC10) hookIntent() (rig.Tx, bool) {
 	case k == 5:
 		args.Var, tag.Var = "foreign-log", "foreign-log"
 	}
-	switch k := rng.Intn(10); {
+	switch k := rng.Intn(11); {
 	case k <= 3:
 		tag.Rcpt, args.To = "self", h.a.Addr.String()
 	case k <= 5:
@@ -2381,6 +2436,8 @@ func (d *tkC10) hookIntent() (rig.Tx, bool) {
 		tag.Rcpt, args.To = "blocked", g.blockedAddr().String()
 	case k == 8:
 		tag.Rcpt, args.To = "not-an-address", "iaa1notanaddress"
+	case k == 9: // a 32-byte account address (derived, interchain and group-policy accounts have that length)
+		tag.Rcpt, args.To = "32-byte-address", sdk.AccAddress([]byte(fmt.Sprintf("tk-long-account-address-%08d", rng.Intn(1000)))).String()
 	default:
 		tag.Rcpt, args.To = "self", h.a.Addr.String()
 	}
